@@ -70,6 +70,9 @@ func (fr *Frame) bigCall(st *State, fn *ssa.Function, args []Value) (Value, bool
 	var ldv func(x Value) *Term
 	ldv = func(x Value) *Term {
 		if iv, isI := x.(*IteV); isI {
+			if nn, ok := fr.derefNonNil(st, iv, "big.Int method "+fn.Name()); ok {
+				return ldv(nn) // a possibly nil pointer: not nil here is an obligation
+			}
 			// a pointer that is one of two cells (e := k, or a scratch integer): read both
 			return F.Ite(iv.C, ldv(iv.A), ldv(iv.B))
 		}
@@ -129,7 +132,13 @@ func (fr *Frame) bigCall(st *State, fn *ssa.Function, args []Value) (Value, bool
 	case "Mod": // Euclidean modulus (result in [0, |m|)); m == 0 panics
 		m := ld(2)
 		fr.oblige(st, "bigdiv", F.Not(F.Eq(m, F.I64(0))), "big.Int.Mod by zero")
-		return set(F.App("big.mod", SInt, ld(1), m))
+		r := F.App("big.mod", SInt, ld(1), m)
+		st.pc = F.And(st.pc, F.Le(F.I64(0), r), F.Lt(r, abs(m))) // documented range of the Euclidean modulus
+		return set(r)
+	case "Div": // Euclidean division (the quotient that goes with Mod); y == 0 panics
+		y := ld(2)
+		fr.oblige(st, "bigdiv", F.Not(F.Eq(y, F.I64(0))), "big.Int.Div by zero")
+		return set(F.App("big.div", SInt, ld(1), y))
 	case "Cmp":
 		return ret(cmp(ld(0), ld(1)))
 	case "CmpAbs":
@@ -164,6 +173,26 @@ func (fr *Frame) bigCall(st *State, fn *ssa.Function, args []Value) (Value, bool
 		}
 		v.fresh++
 		return set(F.Var(fmt.Sprintf("big.frombytes!%d", v.fresh), SInt))
+	case "FillBytes": // buf receives the big-endian bytes of |x|, zero-extended; panics when |x| does not fit
+		sl, ok := args[1].(*SliceV)
+		if !ok || sl.Obj == nil || !sl.Len.IsConst() || !sl.Off.IsConst() || sl.Len.K.Int64() > 256 {
+			unsup("big.Int.FillBytes into a buffer of symbolic length")
+		}
+		n, off := int(sl.Len.K.Int64()), int(sl.Off.K.Int64())
+		x := abs(ld(0))
+		fits := F.Lt(x, F.Int(pow2(8*n)))
+		fr.oblige(st, "bounds:fillbytes", fits, fmt.Sprintf("FillBytes: the value fits in the %d-byte buffer (it panics otherwise)", n))
+		st.pc = F.And(st.pc, fits)
+		v.fresh++
+		for i := 0; i < n; i++ {
+			b := F.RangedVar(fmt.Sprintf("big.FillBytes!%d_%d", v.fresh, i), big.NewInt(0), big.NewInt(255))
+			fr.store(st, &PtrV{Obj: sl.Obj, Path: append(append([]PE(nil), sl.Path...), PE{I: off + i})}, b, nil)
+		}
+		se := &SpecEnv{fr: fr, st: st, old: st, vars: map[string]Value{}, pkg: fr.fn.Pkg, fn: fr.fn}
+		st.pc = F.And(st.pc, F.Eq(se.bytesVal(sl, true), x))
+		used()
+		v.assume("math/big: x.FillBytes(buf) writes the big-endian bytes of |x|, zero-extended to len(buf) (the unique byte string of that length with that value)")
+		return args[1], true
 	case "Bytes": // the big-endian bytes of |x|: a fresh slice b with frombytes(b, 0, len(b)) == |x|
 		v.fresh++
 		o := v.newObject(fmt.Sprintf("big.Bytes!%d", v.fresh), types.NewSlice(types.Typ[types.Uint8]), false)
